@@ -32,10 +32,10 @@ def c12(prop, tier):
                'an observation; non-trivial = every case (each delivers at least one malformed message)')
     r = vlib.tlc_check('Wire.tla', wire_cfg(2, 2), 'C12-wire')
     ck.require_model_ok(r, 'Wire: outcome of every class is no change')
-    sims, _ = vlib.tlc_simulate('Wire.tla', wire_cfg(3, 2), 'C12-sim', 150 if thorough else 25, 6, SEED)
+    sims, _ = vlib.tlc_simulate('Wire.tla', wire_cfg(3, 2), 'C12-sim', 600 if thorough else 25, 6, SEED)
     for b in sims:
         ck.distinct.add(vlib.beh_signature(b))
-    inp = {'property': prop, 'seed': SEED, 'behaviours': sims, 'per_class': 6 if thorough else 1, 'classes': CLASSES}
+    inp = {'property': prop, 'seed': SEED, 'behaviours': sims, 'per_class': 25 if thorough else 1, 'classes': CLASSES}
     res = vlib.run_vh('wire', inp, tag='C12', timeout=900 if not thorough else 3000)
 
     def payload(v):
